@@ -72,6 +72,7 @@ pub enum Forge {
     PlainCloseNotify,
     GarbageHs(u8, u16),       // handshake message of the given type / message_seq with an undecodable body
     SealedGarbage,
+    Certificate(usize, u16),  // Certificate message carrying man-in-the-middle identity k, message_seq given
 }
 
 #[derive(Clone, Debug, PartialEq)]
@@ -288,6 +289,13 @@ impl Shared {
                 (encode_record(&r), format!("DForge (mkRec 0 {} None (KHandshake [mkFrag {} {} 1 0 1 (CWhole BGarbled)]))", 70 + j, ty, ms),
                  format!("forged undecodable handshake type {} mseq {}", ty, ms))
             }
+            Forge::Certificate(k, ms) => {
+                let body = encode_certificate(&[self.ids[*k].certificate[0].clone()]);
+                let n = body.len();
+                let r = hs_record(0, 70 + j as u64, &[whole(HT_CERTIFICATE, *ms, body)]);
+                (encode_record(&r), format!("DForge (mkRec 0 {} None (KHandshake [mkFrag 11 {} {} 0 {} (CWhole (BCertificate [mitm_cert {}]))]))", 70 + j, ms, n, n, k),
+                 format!("forged Certificate of identity {} mseq {}", k, ms))
+            }
             Forge::SealedGarbage => {
                 let r = Rec { ct: CT_HANDSHAKE, ver: (254, 253), epoch: 1, seq: 70 + j as u64, payload: vec![0x5A; 40] };
                 (encode_record(&r), format!("DForge (mkRec 1 {} (Some (junk {}, junk {})) KOther)", 70 + j, j, j), "forged sealed garbage".into())
@@ -474,6 +482,9 @@ pub struct Outcome {
     pub elapsed: f64,
     pub client_connected_at: Option<f64>,
     pub server_connected_at: Option<f64>,
+    /// the forged plaintext payload ("evil") reached the application on the client / server
+    pub evil_up_c: bool,
+    pub evil_up_s: bool,
 }
 
 fn state_code(s: &DtlsState) -> i128 {
@@ -592,6 +603,7 @@ pub async fn run_script(script: Script) -> Outcome {
         rule_hits: sh.rule_hits.clone(),
         elapsed: t0.elapsed().as_secs_f64(),
         client_connected_at: c_at, server_connected_at: s_at,
+        evil_up_c: cup.iter().any(|b| &b[..] == b"evil"), evil_up_s: sup.iter().any(|b| &b[..] == b"evil"),
         script,
     };
     drop(sh);
